@@ -299,6 +299,19 @@ func RuleK17(r *Report, c *Codec) {
 			if pa.Results[0].IsNilConst() {
 				bad = "returns (nil, nil) on a non-nil receiver when [" + cut(pa.State.Describe(), 160) + "]: decoding a value field of this type panics in the codec"
 			}
+			// a typed nil pointer inside the interface is as fatal: the value handed back must be known to be a
+			// pointer to something (a fresh value, the receiver, a pointer the path has tested)
+			inner := pa.Results[0]
+			for inner != nil && inner.Op == "iface" && len(inner.Args) == 1 {
+				inner = inner.Args[0]
+			}
+			if inner != nil && inner != pa.Results[0] && inner.Typ != nil {
+				if _, isPtr := inner.Typ.Underlying().(*types.Pointer); isPtr && nilness(inner) == -1 && inner.Op != "param" {
+					if v, ok := pa.State.Bools["isnil("+inner.String()+")"]; !ok || v {
+						bad = "returns " + cut(inner.String(), 60) + ", a pointer never shown to be non-nil, with a nil error when [" + cut(pa.State.Describe(), 120) + "]: a nil pointer inside the interface makes the codec's store into a value field panic"
+					}
+				}
+			}
 		}
 		if n > 0 {
 			r.Check(bad == "", "K17", kf.Name, c.P.Pos(kf.UnmarshalFn.Pos()), fmt.Sprintf("%d success paths", n), bad)
